@@ -69,7 +69,7 @@ def plan(tier, seed):
 
 
 def mandatory(tier):
-    return [f"op/{o}" for o in OPS] + ["chain", "type/ImageBatch", "type/Image", "type/FlowFields", "type/FlowField", "narrow/negative_dim", "narrow/negative_start", "compared_samples", "pyramid/align_corners=None", "pyramid/align_corners=True", "pyramid/align_corners=False", "pyramid/spacing"] + [f"data_transforms/{n}" for n in ("AvgPoolImage", "CenterCropImage", "CenterPadImage", "NarrowImage", "ResampleImage", "ResizeImage", "config")]
+    return [f"op/{o}" for o in OPS] + ["chain", "type/ImageBatch", "type/Image", "type/FlowFields", "type/FlowField", "subject/fractional_internal_size", "narrow/negative_dim", "narrow/negative_start", "compared_samples", "pyramid/align_corners=None", "pyramid/align_corners=True", "pyramid/align_corners=False", "pyramid/spacing"] + [f"data_transforms/{n}" for n in ("AvgPoolImage", "CenterCropImage", "CenterPadImage", "NarrowImage", "ResampleImage", "ResizeImage", "config")]
 
 
 # ---------------------------------------------------------------------------------------------
@@ -322,6 +322,11 @@ def make_subject(ctx, rng, kind):
     C = D if kind in ("FlowFields", "FlowField") else int(rng.integers(1, 3))
     max_size = 28 if D == 2 else 14
     p0 = gen.rand_grid_params(rng, D, max_size=max_size, min_size=8 if D == 2 else 7, big_offset=False)
+    derived = bool(rng.integers(0, 4) == 0)
+    if derived:
+        # the subject lives on pyramid-level grids: an odd size halved leaves a fractional internal size (17 -> 8.5,
+        # reported 9), which every later operation has to treat as the reported size
+        p0 = dict(p0, size=[2 * int(k) + 1 for k in p0["size"]])
     params, grids, refs, ramps, data = [], [], [], [], []
     for i in range(N):
         p = dict(p0)
@@ -332,6 +337,8 @@ def make_subject(ctx, rng, kind):
             p.pop("origin", None)
             p["center"] = gen.f32(rng.normal(size=D) * 5 + 10 * i).tolist()
         g = gen.make_grid(p)
+        if derived:
+            g = g.downsample(1)
         ref = gen.ref_of_grid(g)
         ramp = Ramp.random(rng, C, ref)
         params.append(p)
@@ -351,7 +358,7 @@ def make_subject(ctx, rng, kind):
     else:
         obj = ImageBatch(t, grids)
     valid = [Validity.of(r) for r in refs]
-    desc = {"kind": kind, "N": N, "C": C, "grids": params, "ramps": [r.describe() for r in ramps]}
+    desc = {"kind": kind, "N": N, "C": C, "grids": params, "ramps": [r.describe() for r in ramps], "derived": derived}
     return Subject(obj, ramps, valid, kind), desc, refs
 
 
@@ -564,6 +571,8 @@ def run_item(ctx, item):
     kind = ["ImageBatch", "ImageBatch", "Image", "FlowFields", "FlowField"][i % 5]
     subj, desc0, refs = make_subject(ctx, rng, kind)
     ctx.bucket(f"type/{kind}")
+    if desc0.get("derived"):
+        ctx.bucket("subject/fractional_internal_size")
     if any(gen.grid_nontrivial(p) for p in desc0["grids"]):
         ctx.nontriv(desc0)
     ctx.sample(desc0 if i < 2 else {"kind": kind, "N": desc0["N"]})
